@@ -577,6 +577,28 @@ func genC09(e *emitter, tier string, seed uint64) map[string]interface{} {
 			if err != nil && len(md.Values) != 0 {
 				e.fail(idx, "set_guard", "refused Set modified the map")
 			}
+			// the same through every entry point that stores a pair: Packet.SetMetadata and Packet.SetMetadataPairs
+			for ei, entry := range []string{"SetMetadata", "SetMetadataPairs"} {
+				pk := protocol.Packet{Metadata: &protocol.Metadata{Values: map[string]string{"keep": "old"}}}
+				if ei == 0 {
+					pk.SetMetadata(k, v)
+					pk.SetMetadata("keep", v)
+				} else {
+					pk.SetMetadataPairs(protocol.KVPair{Key: k, Val: v}, protocol.KVPair{Key: "keep", Val: v})
+				}
+				legal := kl <= 32767 && vl <= 32767
+				got, present := pk.Metadata.Values[strings.ToLower(k)]
+				stored := present && got == v
+				if !legal && present {
+					e.fail(idx, "set_guard", fmt.Sprintf("Packet.%s stored a pair with key %d / value %d bytes that Metadata.Set refuses", entry, kl, vl))
+				}
+				if legal && !stored {
+					e.fail(idx, "set_get", fmt.Sprintf("Packet.%s did not store a legal pair (key %d / value %d bytes)", entry, kl, vl))
+				}
+				if vl > 32767 && pk.Metadata.Values["keep"] != "old" {
+					e.fail(idx, "set_guard", fmt.Sprintf("Packet.%s replaced a valid pair by an over-long value (%d bytes)", entry, vl))
+				}
+			}
 		}
 	}
 	return map[string]interface{}{"exhaustive_subdomains": "all 2^16 two-byte length prefixes; thorough: every string length 0..32768"}
